@@ -358,7 +358,20 @@ def rule_bracearm(text, arg):
     raise TransplantError("R15: arm `%s` not found" % arg)
 
 
+def rule_nameiter(text, arg):
+    """R16: `for x in EXPR` (selected by the token prefix `for x in`) becomes `for x in it: EXPR` - Verus names the ghost iterator so
+    that loop invariants can mention it; no executable token changes"""
+    pat = rs.norm(arg)
+    toks = _tok(text)
+    for j in range(len(toks) - len(pat)):
+        if [t.text for t in toks[j:j + len(pat)]] == pat:
+            k = j + len(pat)
+            return _splice(text, [(toks[k].start, toks[k].start, "it: ")]), 1, "ghost iterator of `%s` named `it`" % arg
+    raise TransplantError("R16: loop `%s` not found" % arg)
+
+
 RULES = {
+    "R16": rule_nameiter,
     "R15": rule_bracearm,
     "R12": rule_mutparam, "R14": rule_retname, "R3": rule_fnptr, "R6": rule_charmax, "R5": rule_asserteq,
     "R4": rule_forcontinue, "R11": rule_iterret, "R10": rule_fields, "subst": rule_subst, "R13": rule_closurespec,
@@ -478,7 +491,8 @@ def expand(template_text, repo_root, read=None):
         fired = []
         if item.attrs_text.strip():
             fired.append({"rule": "R1", "n": 1, "note": "attributes dropped: " + " ".join(item.attrs_text.split())})
-        for r in [x for x in attrs.get("rules", "").split(";") if x]:
+        rules_s = attrs.get("rules", "")
+        for r in [x.strip() for x in (rules_s.split(";;") if ";;" in rules_s else rules_s.split(";")) if x.strip()]:
             rname, _, rarg = r.partition(":")
             if rname not in RULES:
                 raise TransplantError("unknown rule " + rname)
